@@ -42,7 +42,7 @@ def run(rep, tier, seed):
             rrs[1] = dict(rrs[0], cast=rng.choice(["bool", "int"]))     # two rules on the same nodes
         try:
             if rng.random() < 0.65:
-                e = ruledrv.validate_event(len(events) + 1, rrs, doc)
+                e = ruledrv.validate_event(len(events) + 1, rrs, doc, as_data=rng.random() < 0.3)
                 rec = {"op": "validate", "rules": [ruledrv.lit_rule(r) for r in rrs], "doc": to_lit(doc)}
             else:
                 e = ruledrv.ruletest_event(len(events) + 1, rrs[0], doc, rng.choice(["raw", "Data"]))
